@@ -417,6 +417,12 @@ QUOTA_TEMPLATES = {
     'concat-dicts': ('dict(range($m).select([$, $])) + {x => 1}',
                      lambda c: 64 + 36 * c['m']),
     'str': ('str($s * $n)', lambda c: _str_size(len(c['s']) * max(c['n'], 0))),
+    # a literal constant larger than the quota handed straight to a function
+    'literal-len': ("len('{LIT}')", lambda c: _str_size(c['m'] * 4)),
+    'literal-isString': ("isString('{LIT}')", lambda c: _str_size(c['m'] * 4)),
+    'literal-eq': ("'{LIT}' = 1", lambda c: _str_size(c['m'] * 4)),
+    'literal-list': ("['{LIT}', 1].len()", lambda c: _str_size(c['m'] * 4)),
+    'literal-let': ("let(x => '{LIT}') -> 1", lambda c: _str_size(c['m'] * 4)),
 }
 REPETITION = ('str*n', 'n*str', 'list*n', 'n*list', 'tuple*n')
 
@@ -430,6 +436,7 @@ def check_quota(run, case):
         base = '$s' if name == 'double-str' else '$l'
         text = 'let(x => %s) -> ' % base + \
             'let(x => $x + $x) -> ' * case['d'] + '$x'
+    text = text.replace('{LIT}', 'abcd' * case.get('m', 0))
     c['l'] = list(range(case.get('ll', 2)))
     predicted = predict(c)
     ctx = _quota_ctx().create_child_context()
